@@ -98,18 +98,57 @@ func init() {
 	for _, m := range []string{"Add", "Done", "Wait"} {
 		reg("(*sync.WaitGroup)."+m, noop(zeroResults))
 	}
+	// sync.Pool (where a harness does not replace it): Put remembers the object; Get hands out
+	// either the object put back last or a new one (New) — the solver's choice, so that code
+	// which keeps using an object after Put meets its next user
+	poolKey := func(p PtrV) string { return fmt.Sprintf("pool:%d%s", p.obj, pathString(p.path)) }
 	reg("(*sync.Pool).Get", func(ex *Exec, st *State, fv FuncV, args []Value, res ssa.Value, at ssa.Instruction) bool {
 		p := args[0].(PtrV)
 		pool := st.load(p).(StructV)
 		// field "New" is the last field of sync.Pool
-		nf, ok := pool.f[len(pool.f)-1].(FuncV)
-		if !ok || nf.fn == nil {
-			setRes(st, res, IfaceV{})
-			return true
+		nf, hasNew := pool.f[len(pool.f)-1].(FuncV)
+		hasNew = hasNew && nf.fn != nil
+		var list []Value
+		if l, ok := st.ghost[poolKey(p)].(TupleV); ok {
+			list = l
 		}
-		return ex.enter(st, nf, nil, res, at)
+		fresh := func(st *State) {
+			if !hasNew {
+				setRes(st, res, IfaceV{})
+				return
+			}
+			ex.enter(st, nf, nil, res, at)
+		}
+		if len(list) == 0 {
+			if !hasNew {
+				setRes(st, res, IfaceV{})
+				return true
+			}
+			return ex.enter(st, nf, nil, res, at)
+		}
+		return ex.forkAlts(st, []alt{
+			{cond: tTrue, apply: func(st *State) {
+				l := st.ghost[poolKey(p)].(TupleV)
+				v := l[len(l)-1]
+				st.ghost[poolKey(p)] = append(TupleV(nil), l[:len(l)-1]...)
+				setRes(st, res, v)
+			}},
+			{cond: tTrue, apply: fresh},
+		})
 	})
-	reg("(*sync.Pool).Put", noop(zeroResults))
+	reg("(*sync.Pool).Put", func(ex *Exec, st *State, fv FuncV, args []Value, res ssa.Value, at ssa.Instruction) bool {
+		p := args[0].(PtrV)
+		if st.ghost == nil {
+			st.ghost = map[string]Value{}
+		}
+		var list TupleV
+		if l, ok := st.ghost[poolKey(p)].(TupleV); ok {
+			list = l
+		}
+		st.ghost[poolKey(p)] = append(append(TupleV(nil), list...), args[1])
+		setRes(st, res, TupleV{})
+		return true
+	})
 
 	atomicAdd := func(ex *Exec, st *State, fv FuncV, args []Value, res ssa.Value, at ssa.Instruction) bool {
 		p := args[0].(PtrV)
